@@ -412,6 +412,76 @@ fn run_threads(cx: &mut CaseCx, case: &Value) {
   cx.outcome("threads");
 }
 
+
+/// boundary search on internal values: the pairs of triples whose local randomness agree in the most leading /
+/// trailing bytes are processed back-to-back on one thread; each must come out as on a fresh thread
+fn run_near_collisions(cx: &mut CaseCx, _case: &Value) {
+  let ss = strings(true);
+  let mut triples: Vec<(usize, usize, u32)> = vec![];
+  for m in 0..ss.len() {
+    for e in 0..ss.len() {
+      for t in [1u32, 2, 3] {
+        triples.push((m, e, t));
+      }
+    }
+  }
+  // a second family of many short URL-like measurements (more candidates => closer pairs)
+  let urls: Vec<Vec<u8>> = (0..60_000u32).map(|i| format!("https://example.com/page/{}", i).into_bytes()).collect();
+  let mut vals: Vec<([u8; 32], Vec<u8>, Vec<u8>, u32)> = par_map(&triples, |_, &(m, e, t)| (rnd_of(&ss[m], &ss[e], t), ss[m].clone(), ss[e].clone(), t));
+  vals.extend(par_map(&urls, |_, u| (rnd_of(u, b"2026-w39", 3), u.clone(), b"2026-w39".to_vec(), 3u32)));
+  cx.count("randomness_values_examined", vals.len() as u64);
+  let common_prefix = |a: &[u8; 32], b: &[u8; 32]| a.iter().zip(b.iter()).take_while(|(x, y)| x == y).count();
+  let mut cands: Vec<(usize, usize, usize)> = vec![]; // (agreeing bytes, i, j)
+  for rev in [false, true] {
+    let mut idx: Vec<usize> = (0..vals.len()).collect();
+    let key = |i: usize| -> [u8; 32] {
+      let mut k = vals[i].0;
+      if rev {
+        k.reverse();
+      }
+      k
+    };
+    idx.sort_by_key(|&i| key(i));
+    for w in idx.windows(2) {
+      let n = common_prefix(&key(w[0]), &key(w[1]));
+      if n >= 3 {
+        cands.push((n, w[0], w[1]));
+      }
+    }
+  }
+  cands.sort_by(|a, b| b.0.cmp(&a.0));
+  cands.truncate(40);
+  let share = |v: &([u8; 32], Vec<u8>, Vec<u8>, u32)| -> Option<(Vec<u8>, [u8; 16], Vec<u8>)> {
+    let mg = MessageGenerator::new(SingleMeasurement::new(&v.1), v.3, &v.2);
+    let w = mg.share_with_local_randomness().ok()?;
+    let msg = sta_rs::Message::generate(&mg, &v.0, None).ok()?;
+    Some((w.tag.to_vec(), w.key, msg.tag))
+  };
+  for (n, i, j) in cands {
+    for (a, b) in [(i, j), (j, i)] {
+      // reference: b alone on a fresh thread; then a followed by b on another fresh thread
+      let alone = std::thread::scope(|s| s.spawn(|| share(&vals[b])).join().ok().flatten());
+      let after = std::thread::scope(|s| {
+        s.spawn(|| {
+          let _ = share(&vals[a]);
+          share(&vals[b])
+        })
+        .join()
+        .ok()
+        .flatten()
+      });
+      cx.eval();
+      cx.nontrivial(fnv_str(&format!("{}|{}", a, b)));
+      if alone != after || alone.is_none() {
+        cx.viol("C04/client-history", format!("a client for ({}, {}, t={}) derives a different tag / key when its thread served ({}, {}, t={}) just before (their local randomness agree in {} bytes): state is carried between clients", hexs(&vals[b].1), hexs(&vals[b].2), vals[b].3, hexs(&vals[a].1), hexs(&vals[a].2), vals[a].3, n), json!({"first": [hexs(&vals[a].1), hexs(&vals[a].2)], "second": [hexs(&vals[b].1), hexs(&vals[b].2)], "agreeing_bytes": n}));
+        return;
+      }
+      cx.count("near_collision_histories", 1);
+    }
+  }
+  cx.outcome("near collisions");
+}
+
 pub fn spec() -> PropSpec {
   PropSpec {
     id: "C04",
@@ -452,6 +522,13 @@ pub fn spec() -> PropSpec {
         },
         run: run_clients,
         min_counts: &[("combinable_subsets", 50)],
+      },
+      Check {
+        name: "near-collision-histories",
+        rule: "among ~90k triples (the injectivity family with t in 1..3 plus 60000 URL-like measurements) the 40 pairs whose local randomness agree in the most leading or trailing bytes (>= 3) are run back-to-back on one fresh thread, in both orders: tag and key of the second must equal those computed alone on a fresh thread",
+        gen: |_| vec![json!({})],
+        run: run_near_collisions,
+        min_counts: &[("near_collision_histories", 10)],
       },
       Check {
         name: "client-threads",
